@@ -56,7 +56,7 @@ def generate(rng, index: int, tier: str) -> dict:
         for _ in range(rng.choice([1, 2, 3, 5])):
             if rng.random() < 0.05:
                 # "all payloads": an unknown frame far longer than anything defined (16-bit length field)
-                f, k = framegen.long_frame(rng, gen, size=rng.choice(framegen.LONG_SIZES + (20000, 65000)))
+                f, k = framegen.long_frame(rng, gen, size=rng.choice(framegen.LONG_SIZES + framegen.HUGE_SIZES))
                 info["long"] = True
             elif rng.random() < 0.65:
                 f, k = framegen.unknown_frame(rng, gen)
